@@ -8,7 +8,7 @@ the scalar `0` of the Python code (after construction and after every read-out) 
 once something has been integrated.
 
 The model is that of the *repaired* code (pending fixes D15, D29, D30, D31):
-* `integrate p dt w` bins the power onto the detector grid (`statistic='sum'`, factor `s`) and
+* `integrate p dt w` bins the power onto the detector grid (`statistic='sum'`, per-axis factors `ss`) and
   adds `p·dt·w` pixel by pixel; a power of the wrong size is refused (`reshape` raises) and
   leaves the state alone;
 * `readOut` returns the accumulator — the zero image when nothing was integrated — and resets it.
@@ -19,14 +19,19 @@ accumulator (D15) and `integrateOld` does not bin (D29).
 namespace HcipyVerif.Detector
 open HcipyVerif.Binning
 
-/-- Static description of a detector: coarse shape (slowest axis first) and subsampling. -/
+/-- Static description of a detector: coarse shape (slowest axis first) and one subsampling factor per
+axis, in the same order (`Detector(grid, subsamping=<array>)`, D181; the reverse of `grid.dims`). -/
 structure Geom where
   dims : List Nat
-  s : Nat := 1
-deriving Repr
+  ss : List Nat
+  hl : ss.length = dims.length := by decide
+
+/-- a detector with one common subsampling factor `s` (`subsamping=<scalar>`): the factor on every axis -/
+def Geom.uniform (dims : List Nat) (s : Nat := 1) : Geom :=
+  { dims := dims, ss := dims.map fun _ => s, hl := by simp }
 
 def Geom.npix (g : Geom) : Nat := size g.dims
-def Geom.ninput (g : Geom) : Nat := fineSize g.s g.dims
+def Geom.ninput (g : Geom) : Nat := fineSizes g.ss g.dims
 
 section
 variable {K : Type} [Add K] [Zero K] [Mul K]
@@ -60,7 +65,7 @@ def accAdd (acc : Option (List K)) (img : List K) : List K :=
 
 def integrate (g : Geom) (st : St K) (p : List K) (dt w : K) : St K × Obs K :=
   if p.length = g.ninput then
-    ({ acc := some (accAdd st.acc (charge (binND g.s g.dims p) dt w)) }, .done)
+    ({ acc := some (accAdd st.acc (charge (binNDs g.ss g.dims p) dt w)) }, .done)
   else (st, .refused)
 
 def readOut (g : Geom) (st : St K) : St K × Obs K :=
@@ -152,7 +157,7 @@ def rStep (g : Geom) (st : RSt K) : ROp K → RSt K × RObs
   | .integrate buf dt w =>
     let p := st.at buf
     if p.length = g.ninput then
-      ({ st with heap := st.heap ++ [accAdd st.accVal (charge (binND g.s g.dims p) dt w)],
+      ({ st with heap := st.heap ++ [accAdd st.accVal (charge (binNDs g.ss g.dims p) dt w)],
                  acc := some st.heap.length }, .done)
     else (st, .refused)
   | .readOut =>
@@ -185,7 +190,7 @@ def rStepBad (g : Geom) (st : RSt K) : ROp K → RSt K × RObs
   | .integrate buf dt w =>
     let p := st.at buf
     if p.length = g.ninput then
-      let c := charge (binND g.s g.dims p) dt w
+      let c := charge (binNDs g.ss g.dims p) dt w
       match st.acc with
       | none => ({ st with heap := st.heap.set buf c, acc := some buf }, .done)
       | some a => ({ st with heap := st.heap.set a (vadd (st.at a) c) }, .done)
@@ -295,7 +300,7 @@ def PSt.deterministic (g : Geom) (st : PSt K) : Bool :=
 def pStep (g : Geom) (st : PSt K) : POp K → PSt K × Obs K
   | .integrate p dt w =>
     if p.length = g.ninput then
-      let a1 := accAdd st.acc (charge (binND g.s g.dims p) dt w)
+      let a1 := accAdd st.acc (charge (binNDs g.ss g.dims p) dt w)
       ({ st with acc := some (List.zipWith (fun a d => a + d * dt * w) a1 st.dark),
                  clean := st.clean && decide (st.dark = vzero g.npix) }, .done)
     else (st, .refused)
@@ -308,6 +313,30 @@ def pStep (g : Geom) (st : PSt K) : POp K → PSt K × Obs K
   | .setDark d => ({ st with dark := d }, .done)
   | .setSigma s => ({ st with sigma := s }, .done)
   | .setPhoton b => ({ st with photon := b }, .done)
+
+/-! #### read-out with the noise sources *on*: the random draws are inputs
+
+`NoisyDetector.read_out` consumes random numbers in a fixed order: `large_poisson(charge)` when
+`include_photon_noise` (one Poisson draw per pixel, expectation = the accumulated charge, i.e. binned power **and**
+dark current, before the flat field), then `* flat_field`, then `+ np.random.normal(0, read_noise, npix)`, then the
+reset.  The model takes the outcome of the draws as arguments: `δ` = (Poisson draw − its expectation) per pixel, `z` =
+the standard-normal deviates of the read noise.  The harness substitutes a recording stand-in for `np.random` that
+returns `lam + δ` / `loc + scale·z` and compares the arguments the real code hands to it, the call order and the image
+with this definition (driver op `readrng`). -/
+
+/-- elementwise product -/
+def vmul (a b : List K) : List K := List.zipWith (· * ·) a b
+
+/-- what the photon-noise stage is handed (`large_poisson(lam)`): the accumulated charge -/
+def PSt.lam (g : Geom) (st : PSt K) : List K := st.acc.getD (vzero g.npix)
+
+/-- the image of a read-out whose random draws came out as `δ` (photon noise) and `z` (read noise) -/
+def noisyImage (g : Geom) (st : PSt K) (δ z : List K) : List K :=
+  vadd (vmul (if st.photon then vadd (st.lam g) δ else st.lam g) st.flat) (vmul st.sigma z)
+
+/-- `read_out()` with the draws `δ`, `z`: the image, and the reset -/
+def pReadOutRng (g : Geom) (st : PSt K) (δ z : List K) : PSt K × List K :=
+  ({ st with acc := none, clean := true }, noisyImage g st δ z)
 
 /-- the read-outs of a history with setters: for each one, whether everything was off, and what
 was observed -/
@@ -369,7 +398,7 @@ def pendingFrom (g : Geom) : List (List K × K × K) → List (Op K) → List (L
 
 /-- `Σ_j bin(p_j)·dt_j·w_j` as an image of `n` pixels (the empty sum is the zero image) -/
 def sumCharges (g : Geom) (l : List (List K × K × K)) : List K :=
-  l.foldl (fun a (x : List K × K × K) => vadd a (charge (binND g.s g.dims x.1) x.2.1 x.2.2)) (vzero g.npix)
+  l.foldl (fun a (x : List K × K × K) => vadd a (charge (binNDs g.ss g.dims x.1) x.2.1 x.2.2)) (vzero g.npix)
 
 /-- split a history into the list of completed exposures (the integrations before each
 read-out) -/
